@@ -231,12 +231,34 @@ Definition covered (o : origin) (p : list seg) : Prop :=
 
 Definition impl_unique (i : impl_hdr) : bool := oclass_eqb (class_of (i_self i)) Unique.
 
+(** An [IndexWrite<I>] impl that is generic in the index type [I] (the trait argument is a bare type
+    parameter of the impl) is sound only if a where-predicate delegates to an already sanctioned impl of a
+    uniquely owned inner type ([[T]: IndexWrite<I>]): otherwise a client crate may implement
+    [Index<Local>] for the implementing type (the orphan rule allows it for a local index type) with an
+    [index] that leaves the owned storage, e.g. by looking through a stored [Gc]. *)
+Definition where_delegates (g : generics) (x : string) : bool :=
+  existsb (fun w => match w with
+                    | (_, t, bs) =>
+                      oclass_eqb (class_of t) Unique
+                      && existsb (fun b => match b with
+                                           | BTrait _ n _ [TParam y] _ => String.eqb n "IndexWrite" && String.eqb x y
+                                           | _ => false
+                                           end) bs
+                    end) (g_where g).
+
+Definition index_arg_ok (i : impl_hdr) : bool :=
+  match i_trait_args i with
+  | [TParam x] => where_delegates (i_g i) x
+  | _ => true
+  end.
+
 Definition premise (T : tables) : bool :=
   forallb ctor_ok (ctors T)
   && forallb proj_ok (projs T)
   && forallb impl_unique (t_deref T)
   && forallb impl_unique (t_index T)
-  && field_macro_ok (t_field T).
+  && field_macro_ok (t_field T)
+  && forallb index_arg_ok (t_index T).
 
 (** ** Side conditions read from declarations *)
 Definition trait_is_unsafe (ts : list trait_decl) (n : string) : bool :=
